@@ -95,10 +95,10 @@ class Result:
         s.samples = []; s.actions = {}; s.wall = 0.0; s.complete = True; s.per_depth = []; s.inconclusive = []
 
 
-def bfs(world, init_states, depth, time_budget=None, max_states=None, seed=0, stop_on_violation=True, sample_every=997):
+def bfs(world, init_states, depth, time_budget=None, max_states=None, seed=0, stop_on_violation=True, sample_every=997, focus=None):
     """-> Result.  Frontier states are explored level by level; states with equal canonical form are merged."""
     rng = random.Random(seed)
-    R = Result(); t0 = time.time()
+    R = Result(); t0 = time.time(); c0 = time.process_time()
     seen = {}
     frontier = []
     for st in init_states:
@@ -113,25 +113,32 @@ def bfs(world, init_states, depth, time_budget=None, max_states=None, seed=0, st
             acts = world.actions(st)
             rng.shuffle(acts)
             for a in acts:
-                if time_budget is not None and time.time() - t0 > time_budget:
+                # the budget is CPU time of this worker (so that a loaded machine explores the same states, only slower);
+                # wall time is capped at 4x as a safety net
+                if time_budget is not None and (time.process_time() - c0 > time_budget or time.time() - t0 > 4 * time_budget):
                     R.complete = False; break
                 succ = world.apply(st, a)
                 R.actions[a[0]] = R.actions.get(a[0], 0) + 1
                 for st2 in succ:
                     R.transitions += 1
                     st2.depth = d + 1
+                    # a violation ends the exploration of that branch - unless it is a known finding, or belongs to another
+                    # property than the one this check decides (cross-check oracles must not hide the states behind them)
+                    def passes(v): return v.get('known') or (focus is not None and v.get('property') != focus)
                     vio = world.check(st, a, st2)
                     k = None
-                    if not vio:
+                    if not vio or all(passes(v) for v in vio):
                         k = world.key(st2)
                         if k in seen:
-                            R.merged += 1; continue
-                        vio = world.check_state(st2)
+                            R.merged += 1
+                            for v in vio: R.violations.append((v, st2))
+                            continue
+                        vio = list(vio) + list(world.check_state(st2))
                     if vio:
                         for v in vio: R.violations.append((v, st2))
-                        if stop_on_violation and any(not v.get('known') for v in vio):
+                        if stop_on_violation and any(not passes(v) for v in vio):
                             R.wall = time.time() - t0; R.max_depth = d + 1; return R
-                        if any(not v.get('known') for v in vio): continue
+                        if any(not passes(v) for v in vio): continue
                         if k is None:
                             k = world.key(st2)
                             if k in seen:
